@@ -13,6 +13,8 @@ PLANS = {
             'thorough': [E('C10', 'plain', 200000, 3600), E('C10', 'asan', 5000, 900, seed_offset=500000)]},
     'C03': {'quick': [E('C03', 'plain', 1500, 120), E('C03', 'asan', 150, 50, seed_offset=500000)],
             'thorough': [E('C03', 'plain', 60000, 3600), E('C03', 'asan', 3000, 1200, seed_offset=500000)]},
+    'C06': {'quick': [E('C06', 'plain', 2500, 120)],
+            'thorough': [E('C06', 'plain', 80000, 3600)]},
 }
 
 LEVEL = {k: 'exploration' for k in ['C03', 'C04', 'C05', 'C06', 'C07', 'C08', 'C09', 'C10', 'C13', 'C14', 'C17', 'C18', 'C19']}
